@@ -72,7 +72,7 @@ def run(ctx):
         results = list(ex.map(table, enumerate(groups)))
 
     by = collections.Counter(); fams = collections.Counter(); kinds = collections.Counter(); worlds = collections.Counter()
-    nrows = 0; nontrivial = 0
+    nrows = 0; nontrivial = 0; strip_all = 0
     total = collections.Counter(); infos = []
     for r in results:
         if r.emitted != r.distinct:
@@ -82,6 +82,12 @@ def run(ctx):
             for n, ln in enumerate(f):
                 o = json.loads(ln)
                 by[(o["init"], o["fill"])] += 1; fams[o["fam"]] += 1; kinds[o["anskind"]] += 1; worlds[o["sw"]] += 1
+                if o["fam"] == "witness_stripped" and o["segwit"]:
+                    # the announced pieces the row needs are all witness-stripped: coinbase, every prefilled / answered witness transaction
+                    shown = [p["tx"] for p in o["ann"]["pre"]] + list(o["ans"])
+                    if "cbs" in shown and not any(t in ("a", "a2", "d", "y") for t in shown + [x for x in o["avail"]]):
+                        if any(t in ("as", "ds", "ys") for t in shown + list(o["avail"])):
+                            strip_all += 1
                 if o["sw"] != "none" or o["fam"] != "honest" or o["anskind"] != "right":
                     nontrivial += 1              # rows are distinct states of the table: counting is exact
                 if sample is None and o["sw"] != "none" and o["fill"] == "FAILED" and o["init"] == "OK":
@@ -99,11 +105,14 @@ def run(ctx):
     need_status = [("OK", "OK"), ("OK", "FAILED"), ("OK", "INVALID"), ("FAILED", "INVALID"), ("INVALID", "INVALID")]
     missing = [s for s in need_status if not by[s]]
     missing += [f for f in ("honest", "header_null", "empty", "null_prefilled", "index_overflow", "index_out_of_range", "index_last_in_range",
-                            "duplicate_tail", "wrong_prefilled", "foreign_short_id", "swapped_short_ids") if not fams[f]]
-    missing += [k for k in ("right", "wrong_tx", "twin", "reordered", "too_short", "too_long", "empty") if not kinds[k]]
+                            "duplicate_tail", "wrong_prefilled", "foreign_short_id", "swapped_short_ids", "witness_stripped") if not fams[f]]
+    missing += [k for k in ("right", "wrong_tx", "twin", "reordered", "too_short", "too_long", "empty", "stripped") if not kinds[k]]
     missing += [w for w in ("none", "xa", "xb", "bc", "aa2", "ya2") if not worlds[w]]
     if missing:
         raise vflib.InfraError("vacuity: the table has no row with %s" % missing)
+    if not strip_all:
+        raise vflib.InfraError("vacuity: no row in which coinbase witness and every witness transaction are stripped together")
+    ctx.extra["rows_fully_witness_stripped"] = strip_all
     if not total["accepted_blocks"]:
         raise vflib.InfraError("vacuity: the implementation never returned READ_STATUS_OK")
     ctx.extra["rows"] = nrows
